@@ -152,13 +152,42 @@ CmtPos(lv) ==
 Words(lv) == LET ws == SelectSeq(lv, LAMBDA x : WordCount(x) > 0 /\ x.k \notin {"Str", "Raw"})
              IN FoldLeft(LAMBDA acc, x : IF x.k = "Text" THEN acc \o [j \in 1..Len(x.ws) |-> <<"W", x.ws[j]>>]
                                          ELSE Append(acc, <<x.k, x.t>>), <<>>, ws)
+(* the neighbouring words of every comment: the word stream including Str / Raw placeholders, built by the same
+   walk as CmtPos (same `not in` rule), and for each comment the word before and the word after it *)
+WordsAll(lv) ==
+  LET step(acc, i) == LET x == lv[i] IN
+        IF x.k \in Comments THEN acc
+        ELSE IF x.k = "Not" /\ NextSigKind(lv, i + 1) = "In" THEN acc
+        ELSE IF x.k = "Text" THEN acc \o [j \in 1..Len(x.ws) |-> <<"W", x.ws[j]>>]
+        ELSE IF WordCount(x) > 0 THEN Append(acc, IF x.k \in {"Str", "Raw"} THEN <<x.k, "">> ELSE <<x.k, x.t>>)
+        ELSE acc
+  IN FoldLeftDomain(step, <<>>, lv)
+CmtNeighbours(lv) ==
+  LET ws == WordsAll(lv)
+      cp == CmtPos(lv)
+  IN [i \in 1..Len(cp) |-> <<IF cp[i][3] >= 1 /\ cp[i][3] <= Len(ws) THEN ws[cp[i][3]] ELSE <<"edge">>,
+                             IF cp[i][3] + 1 <= Len(ws) THEN ws[cp[i][3] + 1] ELSE <<"edge">> >>]
+(* the comments of the INPUT that lie inside an import statement (a comment outside legitimately gets a new
+   neighbour when the adjacent import items are permuted; the k-th comment of the output is the k-th of the input) *)
+InImport(lv) == LET cm == SelectSeq(lv, LAMBDA x : x.k \in Comments) IN {i \in 1..Len(cm) : cm[i].imp}
+SameNeighboursInImports(e) ==
+  LET a == CmtNeighbours(e.pin.lv)  b == CmtNeighbours(e.pout.lv)
+  IN Len(a) = Len(b) /\ \A i \in InImport(e.pin.lv) : a[i] = b[i]
+
 (* with import reordering on, the words of import items are permuted (C19 decides how): the word streams are
    then compared as bags; a comment's word position is unaffected because an import that holds a comment keeps
    its order *)
 WordBag(ws) == [x \in {ws[i] : i \in 1..Len(ws)} |-> Cardinality({i \in 1..Len(ws) : ws[i] = x})]
 R06(e) == /\ CmtPos(e.pin.lv) = CmtPos(e.pout.lv)
-          /\ IF e.ro THEN WordBag(Words(e.pin.lv)) = WordBag(Words(e.pout.lv))
+          /\ IF e.ro THEN /\ WordBag(Words(e.pin.lv)) = WordBag(Words(e.pout.lv))
+                          /\ SameNeighboursInImports(e)                            \* same neighbouring words
              ELSE Words(e.pin.lv) = Words(e.pout.lv)
+
+(***************************************************************************)
+(* R05 — totality on every recorded call (also used by the universes of    *)
+(* the other relations): the call returned, and refused iff erroneous.     *)
+(***************************************************************************)
+R05(e) == e.outcome \in {"ok", "err"} /\ ((e.outcome = "err") <=> e.ierr)
 
 (***************************************************************************)
 (* R08 — prose: lockstep walk over the children of corresponding Markup    *)
